@@ -158,7 +158,15 @@ def analyse(ck, prog, fixture=False, use_base=False, tag=''):
           'record_error does not store the message when no error was recorded before',
           fn.loc(), key='%s::does-not-record' % fn.qualname)
 
-    # D6 disconnecting always works: whatever close() does, the object ends up not connected
+    check_disconnect(ck, eng, 'C04-D6-disconnect')
+
+    side_doors(ck, prog, family)
+    ck.extra['engine_stats'] = eng.stats
+    return requests
+
+
+def check_disconnect(ck, eng, rule):
+    """Disconnecting always works: whatever close() does, the object ends up not connected."""
     fn = eng.method('disconnect')
     for ts in ALL_TS:
         outs = eng.run('disconnect', ts)
@@ -172,14 +180,10 @@ def analyse(ck, prog, fixture=False, use_base=False, tag=''):
                         n[0] == 'caught' for n in o.state.notes) else '')
             if bad:
                 break
-        ck.ob('C04-D6-disconnect', '%s from %s' % (fn.qualname, ts.name), bad is None,
+        ck.ob(rule, '%s from %s' % (fn.qualname, ts.name), bad is None,
               'disconnect %s: the object is then not "not connected" and later requests '
               'transmit on a closed/broken port' % bad, fn.loc(),
               key='%s::port-survives-disconnect' % fn.qualname)
-
-    side_doors(ck, prog, family)
-    ck.extra['engine_stats'] = eng.stats
-    return requests
 
 
 def side_doors(ck, prog, family):
